@@ -429,6 +429,61 @@ def expr_depth3_ifexp(ik: int, a: int, b: int, c: int) -> bool:
     return _check_expr(_d3(8, ik, a, b, c), "expr_d3", (8, ik, a, b, c))
 
 
+# --------------------------------------------------------------------------------------------- text level
+HOSTILE = [
+    ("not", lambda n: "not " * n + "a"),
+    ("neg", lambda n: "-" * n + "1"),
+    ("attr", lambda n: "d" + ".k" * n),
+    ("sub", lambda n: "l" + "[0]" * n),
+    ("parens", lambda n: "(" * n + "1" + ")" * n),
+    ("list", lambda n: "[" * n + "]" * n),
+    ("and", lambda n: "a and (" * n + "a" + ")" * n),
+    ("binop", lambda n: "1" + "+1" * n),
+    ("cmp", lambda n: "1" + " < 2" * n),
+    ("ifexp", lambda n: "1 if a else " * n + "2"),
+    ("surrogate", lambda n: "'" + "x" * (n % 7) + chr(0xD800) + "' == a"),
+    ("nul", lambda n: "a" + chr(0) * (1 + n % 3) + "b"),
+    ("digits", lambda n: "1" * (n * 5) + " == a"),
+    ("name", lambda n: "x" * (n * 5)),
+    ("tabs", lambda n: chr(9) * n + "a"),
+    ("newlines", lambda n: "a" + chr(10) * n + "== 1"),
+    ("float", lambda n: "1e" + "9" * (1 + n % 5) + " > a"),
+]
+DEPTHS = [1, 40, 150, 240, 400, 950, 1600, 5000]
+BASES = [0, 300, 700]
+
+
+def _at_depth(k: int, f):
+    return _at_depth(k - 1, f) if k > 0 else f()
+
+
+def expr_hostile_text(kind: int, depth: int, base: int) -> bool:
+    """
+    post: _
+    """
+    with hx.Path("expr_hostile_text") as P:
+        name, gen = HOSTILE[hx.pick(kind, len(HOSTILE))]
+        n = DEPTHS[hx.pick(depth, len(DEPTHS))]
+        b = BASES[hx.pick(base, len(BASES))]
+        with hx.native():  # the text is concrete on every path; ast.parse is C code
+            text = gen(n)
+            P.reached((name, n, b))
+            ctx = _fresh_ctx()
+            before = repr(ctx)
+            exc = None
+            try:
+                _at_depth(b, lambda: evaluate_expression(text, ctx))
+            except ExpressionError:
+                pass
+            except BaseException as e:  # noqa: BLE001 - nothing but the evaluator's own error may escape
+                exc = type(e).__name__
+            if exc is not None:
+                return P.fail("C20/text/%s/raises_%s" % (name, exc), {"text_class": name, "repeat": n, "call_stack_depth": b, "text_prefix": text[:40], "exception": exc})
+            if repr(ctx) != before:
+                return P.fail("C20/text/%s/mutates_context" % name, {"repeat": n})
+        return True
+
+
 # --------------------------------------------------------------------------------------------- callers
 def callers_catch(k: int) -> bool:
     """
@@ -487,6 +542,7 @@ PLAN = [
     ("expr_depth3_subkey", "thorough", 1500),
     ("expr_depth3_ifexp", "thorough", 1500),
     ("callers_catch", "quick", 60),
+    ("expr_hostile_text", "quick", 280),
 ]
 
 META = {
@@ -495,7 +551,7 @@ META = {
                   "src/stabilize/handlers/complete_stage/split_logic.py:_apply_split_logic", "src/stabilize/handlers/start_stage/conditions.py:_should_skip"],
     "bounds": ["graphs: 3 stages (refs unique or duplicated, requisites any subset of the refs, one unknown ref) exhaustively; 4 stages with 4 representative requisite sets for the first stage (thorough)",
                "expressions: every supported node class with leaf children over 12 leaf kinds (int/str/None/bool constants, names bound to int, str, list, dict, tuple, float, unbound) - depth 2 exhaustively; 14 unsupported constructs; depth 3 for 6 root shapes over 11 inner shapes (thorough)",
-               "text: only what ast.unparse of those trees produces"],
+               "text: what ast.unparse of those trees produces, plus 17 classes of hostile text (nesting of each recursive construct repeated 1..5000 times, lone surrogate, NUL, huge literals/names, whitespace) evaluated at call-stack depths 0/300/700"],
     "stubs": ["ids: ULID() replaced by a counter"],
     "assumptions": ["text -> AST (ast.parse, C code) is outside: it is exercised concretely on the unparsed text of every explored tree"],
 }
